@@ -315,10 +315,21 @@ fn c16_grid() -> Vec<Probe> {
         s.push(("client_stats".into(), "on".into()));
         out.push(Probe { via_env, settings: s, make_dir: false });
     }
-    // unknown key (file only: unknown environment variables are simply not read)
-    let mut s = base_settings();
-    s.push(("frobnicate".into(), "1".into()));
-    out.push(Probe { via_env: false, settings: s, make_dir: false });
+    // unknown key (file only: unknown environment variables are simply not read), with ordinary, empty and null values
+    for v in ["1", "", "~", "null", "on"] {
+        let mut s = base_settings();
+        s.push(("frobnicate".into(), v.into()));
+        out.push(Probe { via_env: false, settings: s, make_dir: false });
+        let mut s = base_settings();
+        s.push(("fault_percentge".into(), v.into()));
+        out.push(Probe { via_env: false, settings: s, make_dir: false });
+    }
+    // a documented key written without a value (YAML null) is not a value in range
+    for k in ["batch_size", "fault_percentage", "num_workers", "health_check_port", "status_interval", "port"] {
+        for v in ["", "~"] {
+            out.push(with_setting(k, v, false));
+        }
+    }
     out
 }
 
